@@ -302,7 +302,7 @@ func init() {
 		Rule: "chain part: every sibling list up to the bound over {plain, v-if(T/F), v-else-if(T/F), v-else, v-for over an empty / one-element list, v-else / v-else-if members that are themselves loops} x separators {none, whitespace, comment, both} x placements {top, div, v-for x2, <template> members, nested in a taken branch, deep}; oracle: reference chain evaluator gives the ordered marker list. " +
 			"truth part: 46 Go values x 3 ways of reaching them x 6 consumers (v-if, v-else-if, !x, v-show, :attr, :class object); oracles: documented table and agreement between consumers. non-trivial = chain of >=2 members with defined semantics, or any truth case",
 		Bounds:      map[string]string{"quick": "sibling lists of length <= 5", "thorough": "sibling lists of length <= 6"},
-		Assumptions: []string{"what an orphan v-else/v-else-if renders, and members after a v-else, are unconstrained (only plain siblings are checked there)", "typed nil pointers, NaN and the string \"false\" are checked for uniformity only"},
+		Assumptions: []string{"what an orphan v-else/v-else-if renders, and members after a v-else, are unconstrained (only plain siblings are checked there)", "NaN and the string \"false\" are checked for uniformity only"},
 		Decode:      core.DecodeAs[c03Case](),
 		Enumerate: func(tier string, emit func(core.Case)) {
 			for _, tv := range truthValues {
